@@ -1,7 +1,7 @@
 """Driver configuration for C13 (check runner)."""
 
 CFG = dict(
-    tests=["TestC13"],
+    tests=["TestC13", "TestC13Stress"],
     n_quick=120, n_thorough=700, shards_thorough=4,
     rule="corpus + 30 boundary families (0/1/9/10/11/20/21/25/1000 payloads with 128 and with 3 workers, everything cached, "
          "cached payloads between new ones with later batches completing first, same work id on a higher / lower block, "
@@ -9,6 +9,11 @@ CFG = dict(
          "cache that never expires, failed results not cached, all / first / last / middle / only batch failing, one worker, "
          "pipeline returning none / two / id-less results, duplicate units of work, two overlapping callers on the same work ids) "
          "+ VERIF_N random histories of 1-5 calls (some overlapping) over a small pool of work ids / blocks / hashes, from one PRNG; "
+         "log-trigger payloads (with LogTriggerExtension) are asked again on (same number, other hash), (other number, same hash), "
+         "(same both), alone and mixed with conditional ones; even work ids of random cases are log triggers. "
+         "TestC13Stress (direct.json): 16 (quick) / 120 (thorough) rounds on the real clock and real goroutines, ~1000 distinct "
+         "payloads on as many workers as batches, all batches released at once by a barrier (1-4 waves, every k-th batch failing, "
+         "second all-cached call), verdict = exact multiset one result per payload of the successful batches; "
          "non-trivial = a call was partly served from the cache and partly run, or a batch failed while another succeeded; "
          "distinct = structural hash of the generator-form input",
     trusted=["scripted Runnable (harness/c13/kit): per-batch latency on the synctest virtual clock, scripted batch failures, "
@@ -21,6 +26,7 @@ CFG = dict(
                  "C13_one_result_per_payload assumes a pipeline that answers every payload of a batch once with the payload's work id, block and hash"],
     modelled="Runner.parallelCheck / wrapAggregate / CheckUpkeeps, result accumulation (runner/result.go), util.Cache Get/Set with "
              "expiry, internal/util.Unflatten; exercised but not modelled: the cache's GC ticker (unobservable through Get), logging",
-    partial="interleavings of two aggregators inside one virtual instant (goroutine pre-emption between Cache.Get and Cache.Set) are "
+    partial="the real-goroutine stress part samples schedules of the Go scheduler (it cannot enumerate them); "
+            "interleavings of two aggregators inside one virtual instant (goroutine pre-emption between Cache.Get and Cache.Set) are "
             "covered by the fine-grained model and theorem C13_concurrent_hit_exact, not by the correspondence run",
 )
